@@ -1,7 +1,7 @@
 #!/bin/sh
 # usage: tools/seedbg.sh <patchdir> <property> [tier]  -- evaluates a seeded change in a scratch worktree (VERIF_REPO), leaving /repo alone
 cd "$(dirname "$0")/.."; . ./env.sh
-dir="$1"; prop="$2"; tier="${3:-quick}"
+dir="$(cd "$1" && pwd)"; prop="$2"; tier="${3:-quick}"
 wt=$(mktemp -d /tmp/seedwt.XXXXXX); rmdir $wt
 git -C /repo worktree add -q --detach $wt HEAD || exit 9
 git -C $wt apply "$dir/patch.diff" || { echo "patch does not apply"; git -C /repo worktree remove --force $wt; exit 9; }
